@@ -172,6 +172,10 @@ class KernelSim(WorldBase):
                        if g.random() < 0.6]
                 evs.append(["rename", {"dims": dims, "ent": ent, "old": ["X", "Y"][:nd], "new": ["P", "Q"][:nd],
                                        "via": g.choice(["setRankIds", "setRankIds", "fromFiber"])}])
+            if g.random() < 0.25:
+                SM, SK = g.randint(1, 4), g.randint(1, 5)
+                mk = lambda: [[[m_, k_], g.choice([1, 2, 3, -1])] for m_ in range(SM) for k_ in range(SK) if g.random() < 0.6]
+                evs.append(["lateon", {"dims": [SM, SK], "a": mk(), "b": mk(), "on_at": g.randrange(0, 3), "trace": g.random() < 0.5}])
             if g.random() < 0.4:
                 kinds = ["add_bb", "add_bs", "add_sb", "mul_bb", "mul_bs", "mul_sb", "iadd_b", "iadd_s", "imul_b", "imul_s",
                          "set_b", "set_s"]
@@ -452,6 +456,8 @@ class KernelSim(WorldBase):
                 return self.ev_rename(ev[1])
             if kind == "lazytime":
                 return self.ev_lazytime(ev[1])
+            if kind == "lateon":
+                return self.ev_lateon(ev[1])
             if kind == "swaps":
                 return self.ev_swaps(ev[1])
             if self.case is None:
@@ -1021,6 +1027,59 @@ class KernelSim(WorldBase):
         return {"bodies": bodies}
 
     # ---- C16: when a lazy co-iteration object is constructed does not matter
+    def ev_lateon(self, a):
+        """the program switches collection on inside the body of a loop that is already running (the outer populate and
+        co-iteration were started before beginCollect()): same result as with collection off, no exception. Counts and
+        traces of such a session are not judged (what they should hold is not stated anywhere)."""
+        self._quiesce()
+        SM, SK = a["dims"]
+        A = Tensor(rank_ids=["M", "K"], shape=[SM, SK])
+        B = Tensor(rank_ids=["M", "K"], shape=[SM, SK])
+        for t, ent in ((A, a["a"]), (B, a["b"])):
+            for pt, v in ent:
+                r = t.getPayloadRef(*pt)
+                r <<= v
+        prefix = os.path.join(self.scratch, "lateon")
+
+        def kernel(on_at):
+            Z = Tensor(rank_ids=["M"], shape=[SM])
+            n = 0
+            for m, (z_ref, (a_k, b_k)) in Z.getRoot() << (A.getRoot() & B.getRoot()):
+                if on_at is not None and n == on_at:
+                    Metrics.beginCollect(prefix)
+                    if a.get("trace"):
+                        Metrics.trace("K", "iter")
+                n += 1
+                for k, (av, bv) in a_k & b_k:
+                    z_ref += av * bv
+            return ob.content(Z.getRoot())
+        ref = kernel(None)
+        err = got = None
+        self.nsess += 1
+        self.kexec += 1
+        try:
+            got = kernel(a["on_at"])
+        except Exception as e:
+            err = f"{type(e).__name__}: {str(e)[:80]}"
+        finally:
+            if Metrics.isCollecting():
+                self.probe("collection_switched_on_inside_a_running_loop")
+                try:
+                    Metrics.endCollect()
+                except Exception as e:
+                    err = err or f"endCollect {type(e).__name__}: {str(e)[:60]}"
+        if self.prop != "C15":
+            return {}
+        if err:
+            self.V("C15", "C15.transparent", "lateon",
+                   f"collection switched on in the body of step {a['on_at']} of a running outer loop: the kernel raised {err}; "
+                   f"with collection off it computes {ref}")
+        elif got != ref:
+            self.V("C15", "C15.transparent", "lateon",
+                   f"collection switched on in the body of step {a['on_at']} of a running outer loop: result {got}, with "
+                   f"collection off {ref}")
+        return {"points": len(ref)}
+
     def ev_lazytime(self, a):
         """z_m << (a_m & b_m) (or z_m << a_m), the loop object built (1) inside the session, right where it is walked,
         (2) before beginCollect(): same result, byte-identical traces"""
